@@ -422,3 +422,158 @@ class Harness:
         ev = rec.take()
         rec.reset_binding()
         return ev, note
+
+
+# =========================================================================== AES fallback objects (round 4)
+class CodeHooks:
+    """Hook-free yield points inside library functions: sys.monitoring events on chosen code objects
+    (PY_START of nested functions, LINE of one source line).  The callback runs on the executing thread."""
+
+    TOOL = 3
+
+    def __init__(self):
+        import sys as _s
+        self.mon = _s.monitoring
+        self.cbs = {}            # (code, line|None) -> callable(code)
+        self._on = False
+
+    @staticmethod
+    def nested(func, name):
+        out = [c for c in func.__code__.co_consts if isinstance(c, types.CodeType) and c.co_name == name]
+        if len(out) != 1:
+            raise MachineryError(f"binding vanished: nested function {name} in {func.__name__}")
+        return out[0]
+
+    @staticmethod
+    def line_of(func, needle):
+        import inspect
+        lines, first = inspect.getsourcelines(func)
+        hits = [first + i for i, ln in enumerate(lines) if needle in ln]
+        if len(hits) != 1:
+            raise MachineryError(f"binding vanished: line containing {needle!r} in {func.__name__} ({len(hits)} hits)")
+        return hits[0]
+
+    def on_start(self, code, cb):
+        self.cbs[(code, None)] = cb
+
+    def on_line(self, code, line, cb):
+        self.cbs[(code, line)] = cb
+
+    def __enter__(self):
+        m = self.mon
+        m.use_tool_id(self.TOOL, "c15")
+        ev = m.events
+        m.register_callback(self.TOOL, ev.PY_START, lambda code, off: self._fire(code, None))
+        m.register_callback(self.TOOL, ev.LINE, lambda code, line: self._fire(code, line))
+        per = {}
+        for (code, line) in self.cbs:
+            per[code] = per.get(code, 0) | (ev.PY_START if line is None else ev.LINE)
+        for code, mask in per.items():
+            m.set_local_events(self.TOOL, code, mask)
+        self._codes = list(per)
+        self._on = True
+        return self
+
+    def _fire(self, code, line):
+        cb = self.cbs.get((code, line))
+        if cb is not None:
+            cb(code)
+        return None
+
+    def __exit__(self, *a):
+        if self._on:
+            m = self.mon
+            for code in self._codes:
+                m.set_local_events(self.TOOL, code, 0)
+            m.register_callback(self.TOOL, m.events.PY_START, None)
+            m.register_callback(self.TOOL, m.events.LINE, None)
+            m.free_tool_id(self.TOOL)
+            self._on = False
+
+
+class JobScheduler(Scheduler):
+    """Scheduler whose threads run arbitrary jobs (here: whole extractions); yield points are the patch-section
+    operations (as before) plus whatever CodeHooks park (`aes_ops`)."""
+
+    def __init__(self, rec, jobs, visible_extra=()):
+        super().__init__(rec, len(jobs), 1, [[False]] * len(jobs))
+        self.jobs = jobs
+        self.results = {}
+        self.VISIBLE = tuple(Scheduler.VISIBLE) + tuple(visible_extra)
+        self.ops = []                               # (t, op) of the extra yield points, in execution order
+
+    def hook_park(self, kind):
+        """callback factory for CodeHooks: park the executing worker thread before `kind`"""
+        def cb(_code):
+            t = self.rec.tids.get(threading.get_ident())
+            if t is not None and self.rec.sched is self:
+                self.park(t, (kind,))
+                self.ops.append((t, kind))
+        return cb
+
+    def _worker(self, t):
+        rec = self.rec
+        rec.tids[threading.get_ident()] = t
+        try:
+            self.park(t, ("Start",))
+            self.results[t] = self.jobs[t - 1]()
+        except BaseException as e:  # noqa
+            self.errors.append((t, repr(e)))
+        finally:
+            rec.tids.pop(threading.get_ident(), None)
+            self.arr[t].put(("done",))
+
+
+class AesHarness(Harness):
+    """two (or more) extractions of AES-encrypted PDFs in real threads under an explicit schedule; yield points:
+    CryptAES.__init__ / CryptAES.decrypt of the library's AES fallback (the nested functions installed by
+    patch_pypdf_fallback_aes) + the patch-section operations + the extractor's locks"""
+
+    def __init__(self):
+        super().__init__(scheduled=True)
+        from . import repo
+        self.fb = repo.need("sharepoint2text.parsing.extractors.pdf._pypdf_aes_fallback",
+                            "patch_pypdf_fallback_aes", "_get_round_keys", "_ROUND_KEY_CACHE")
+        self.c_init = CodeHooks.nested(self.fb.patch_pypdf_fallback_aes, "_cryptaes_init")
+        self.c_dec = CodeHooks.nested(self.fb.patch_pypdf_fallback_aes, "_cryptaes_decrypt")
+
+    def run(self, jobs, chooser, max_steps=200000):
+        """chooser(step_no, live_threads, last) -> thread to step next.  -> (results, errors, events, ops, note)"""
+        rec = self.rec
+        rec.take()
+        s = JobScheduler(rec, jobs, visible_extra=("AesInit", "AesDecrypt", "Start"))
+        hooks = CodeHooks()
+        hooks.on_start(self.c_init, s.hook_park("AesInit"))
+        hooks.on_start(self.c_dec, s.hook_park("AesDecrypt"))
+        note = ""
+        with hooks:
+            s.start()
+            n = 0
+            last = None
+            blocked_round = set()
+            while len(s.done) < s.k and n < max_steps:
+                live = [t for t in range(1, s.k + 1) if t not in s.done]
+                t = chooser(n, live, last)
+                r = s.step(t)
+                n += 1
+                last = t
+                if r in ("blocked", "stuck"):
+                    blocked_round.add(t)
+                    if blocked_round >= set(live):
+                        note = "deadlock"
+                        break
+                    others = [x for x in live if x not in blocked_round]
+                    s.step(others[0])
+                    last = others[0]
+                    blocked_round.discard(others[0])
+                else:
+                    blocked_round.clear()
+            if not note and len(s.done) < s.k:
+                note = "step budget exhausted"
+            joined = s.finish() if not note else False
+        if not note and joined:
+            with rec.rec_lock:
+                rec.events.append({"a": "Quiescent", "fn": rec.current()})
+        ev = rec.take()
+        rec.reset_binding()
+        return s.results, s.errors, ev, s.ops, note
